@@ -65,6 +65,13 @@ def text_of(n, tag, length):
     return body + b"Z"
 
 
+def big_text(n, tag, length):
+    """like text_of, for the size dimension (tens of thousands of bytes, no period of 256 or 65536)"""
+    seed = ("%d:%s:" % (n, tag)).encode()
+    unit = seed + b"\xe9(payload)\\ " + bytes(range(32, 127))
+    return (unit * (length // len(unit) + 1))[: length - 1] + b"Z"
+
+
 LENS = (0, 5, 16, 17)
 
 
@@ -154,6 +161,15 @@ class CryptDoc:
                 objs[n] = item_dict(n)
                 self.packed.append(n)
                 item_refs.append(Ref(n))
+        if c.get("dv") in ("big", "huge"):
+            # the size dimension: data around the 64 KiB mark (and far beyond it)
+            sizes = (65535, 65536, 65537) + ((150000,) if c["dv"] == "huge" else ())
+            objs[50] = {"B%d" % L: big_text(50, "B%d" % L, L) for L in sizes}
+            objs[51] = Stream({}, big_text(51, "data", 65537))
+            item_refs += [Ref(50), Ref(51)]
+            if c["dv"] == "huge":
+                objs[52] = Stream({}, big_text(52, "data", 150000))
+                item_refs.append(Ref(52))
         if c["form"] == "xrefstmw0":
             # /W [1 n 0]: no generation field (every generation is 0), hence no object with another generation
             for n in [n for n, g in gens.items() if g]:
